@@ -13,7 +13,7 @@ def main():
     vfiles, drivers = [], []
     for c in man['checks']:
         mod = importlib.import_module('props.' + c['property_id'].lower())
-        for f in mod.COQ_FILES:
+        for f in list(mod.COQ_FILES) + list(getattr(mod, 'TIE_FILES', [])):
             if f not in vfiles:
                 vfiles.append(f)
         d = getattr(mod, 'DRIVER', None)
